@@ -28,6 +28,15 @@ CHECKS = {
         note="Trusts CrossHair path exhaustion and z3; names hashed by the rewriter / regex-scanned by the Athena dialect are "
              "symbolic picks from a 3-name pool (a symbolic str never closes there); ORM visitors' no-mutation clause is "
              "exercised by the ORM properties, not here."),
+    "C14": dict(
+        level="model_checking", engine="chx", design="DESIGN.md section 4 C14",
+        technique="CrossHair symbolic execution (z3) of AliasRewriter over per-shape harnesses with every name symbolic "
+                  "(hash-free alias Mapping stub), vs an independent scoped-substitution oracle; constructor on picked texts",
+        text="Bounded model checking of the real AliasRewriter: per (tree shape, alias-map shape) CrossHair+z3 covers every "
+             "assignment of names, hence every coincidence between alias keys and function / parameter / lambda-variable "
+             "names; identity, no-mutation and bijection-inverse clauses per shape; counterexamples replayed concretely.",
+        note="Trusts CrossHair/z3; alias map handed over as a hash-free Mapping (== scan) because symbolic strings cannot be "
+             "hashed; names of length 1; maps of <= 2 keys; the text-parsing constructor is covered on picked concrete texts only."),
 }
 
 NOT_YET = {}
@@ -93,7 +102,7 @@ def main():
         print("written (jsonschema not available to validate)")
 
 
-SOURCE_COMMITS = []
+SOURCE_COMMITS = ["84fe7aa fix: AliasRewriter no longer rewrites function names, parameter names and lambda variables"]
 
 if __name__ == "__main__":
     main()
